@@ -13,6 +13,9 @@ Inductive dec_obs := DPanicked | DRejected | DAccepted (p : packet) (stable : bo
 Fixpoint count_nul (l : bytes) : nat :=
   match l with [] => O | b :: r => if N.eqb b 0 then S (count_nul r) else count_nul r end.
 
+(** The datagram does not end in a NUL: whatever field comes last is not terminated. *)
+Definition unterminated (l : bytes) : bool := negb (N.eqb (last l 1) 0).
+
 (** Datagrams the property says must be rejected. *)
 Definition must_reject (buf : bytes) : bool :=
   match buf with
@@ -25,8 +28,13 @@ Definition must_reject (buf : bytes) : bool :=
       | c :: d :: _ => 7 <? c * 256 + d                      (* unknown error code *)
       | _ => true
       end
-    else if (op =? 1) || (op =? 2) then (count_nul rest <? 2)%nat (* file name or mode unterminated *)
-    else false
+    else if (op =? 1) || (op =? 2) then
+      (count_nul rest <? 2)%nat                               (* file name or mode unterminated *)
+      || unterminated rest                                    (* the last option name or value unterminated *)
+    else match rest with
+         | [] => false
+         | _ => unterminated rest                             (* OACK: the last option name or value unterminated *)
+         end
   | _ => true                                                 (* shorter than the opcode *)
   end.
 
@@ -182,8 +190,12 @@ Section SendMonitor.
       match l with
       | [] => Some []
       | (raw, failed, _) :: l' =>
-        if is_error raw then (* handshake ERROR: sent once *)
-          match emissions fuel' l' with Some e => Some (raw :: e) | None => None end
+        if is_error raw then (* handshake ERROR: sent once - a second copy straight behind it breaks the grouping *)
+          match l' with
+          | (r2, _, _) :: _ => if bytes_eqb r2 raw then None
+                               else match emissions fuel' l' with Some e => Some (raw :: e) | None => None end
+          | [] => Some [raw]
+          end
         else if failed then
           match l' with [] => Some [raw] | _ => None end
         else
@@ -286,9 +298,12 @@ Section SendMonitor.
                        && (negb (stale_ack && is_last) || (retry_budget <=? fails) || io_end) in
             let c07 := (negb (retry_budget <=? fails) || is_last)
                        && (negb is_last || match ending with EndOk => false | _ => true end) in
+            (* C04: recovery is driven by the timer - once the timeout has elapsed since the last transmission, a receive
+               that brings no progress is followed by the window again (unless the retry budget is used up) *)
+            let c04 := c07 && (negb timed || sent || (retry_budget <=? fails)) in
             let m0 := mk_smon (m_hi m) (m_acked m) (if sent then 0 else elapsed) fails (m_client m) false in
             let '(m1, v1) := check_burst m0 (m_acked m + 1) ems in
-            vand (vand v1 (mk_sverdict5 true c07 c08 true c07)) (smon_run m1 evs' bs' ending)
+            vand (vand v1 (mk_sverdict5 true c07 c08 true c04)) (smon_run m1 evs' bs' ending)
       )
     | [], [] => vtrue
     | [], _ :: _ => mk_sverdict true false true true   (* more receives than the padded script has events *)
